@@ -5,8 +5,12 @@ A kernel is described by plain JSON  {"k": name, "p": [params]}.  `Ref(spec)` gi
     rho(x), d1(x), d2(x)   mp.mpf -> mp.mpf
     T                      natural threshold of the input x=|R|^2 (delta^2, 1/delta^2, a, m, 1/c ...)
     vscale                 absolute scale of the terms that cancel in the documented formula (value tolerance):
-                           delta^2 (Huber, PseudoHuber, Cauchy), 2 (SoftLOne), 2(a+|b|) (Tolerant), 0 (Arctan, Scale)
+                           delta^2 (Huber, PseudoHuber, Cauchy), 2 (SoftLOne), 2(a+|b|) (Tolerant), 0 (Arctan, Scale);
+                           user kernels: 2 sqrt(c) (sqrt), a m^3 (cubic), 0 otherwise
     psens(x)               relative sensitivity of rho' to an eps-rounding of the parameters / of (x-a)/b
+    d2noise(x)             absolute size of the terms that CANCEL when rho'' is evaluated by differentiating the kernel's own
+                           formula twice (what autograd does): the computed rho'' carries an absolute error ~ eps * d2noise
+    d2_range(x, t, cn)     [lo, hi] containing every rho'' a dtype evaluation may see: rho'' over x(1 +- t), widened by cn*d2noise
 `family`: builtin | pos (rho''>0) | lin (rho''=0) | neg (rho''<0) | mixed (sign of rho'' depends on x).
 Nothing here calls pypose.
 """
@@ -29,7 +33,7 @@ def in_domain(spec):
     if not all(math.isfinite(v) for v in p):
         return False
     if k == "Tolerant":
-        return p[0] > 0 and p[1] < 0 and p[0] / -p[1] <= 50 and 5e-4 <= p[0] <= 1e3
+        return p[0] > 0 and p[1] < 0 and p[0] / -p[1] <= 50 * (1 + 1e-12) and 5e-4 <= p[0] <= 1e3
     if k == "Scale":
         return 0 < p[0] <= 1
     if k == "sine":
@@ -61,9 +65,10 @@ class Ref:
             elif k in ("quad", "exp", "log1p", "sine"):
                 self.T = 1 / p[0] if k != "sine" else 1 / p[1]
             elif k == "sqrt":
-                self.T = p[0]
+                self.T, self.vscale = p[0], 2 * float(mp.sqrt(p[0]))        # sqrt(x+c) - sqrt(c)
             elif k in ("cubic", "chuber"):
                 self.T = p[1]
+                self.vscale = float(p[0] * p[1] ** 3) if k == "cubic" else 0.0      # a ((x-m)^3 + m^3) / 3
             else:
                 raise ValueError(k)
 
@@ -189,12 +194,37 @@ class Ref:
             return float((x + a) / abs(b) * (1 - self.d1(x))) + 2.0
         return 2.0
 
-    def curv_class(self, x, t):
-        """sign class of rho'' robust to a relative perturbation t of x: 'pos', 'nonpos' or 'ambig'"""
+    def d2noise(self, x):
+        """absolute size of the terms that cancel in the twice-differentiated kernel formula.
+        Tolerant: d/dx of  E/(1+E)  (E = exp((x-a)/b), s = E/(1+E) = rho') is evaluated as  s/b - s^2/b : two terms of size
+        s/|b|, s^2/|b| whose difference s(1-s)/b -> 0 as s -> 1 (x << a): the computed rho'' is then rounding noise of either
+        sign.  xlog1p: 1/(1+x) + 1/(1+x) - x/(1+x)^2 (mild).  Every other kernel's rho'' is a single product (no
+        cancellation beyond the one in x - m, which is a perturbation of x and covered by d2_range's t)."""
+        if self.k == "Tolerant":
+            s = self.d1(x)
+            return float(s * (1 + s) / abs(self.p[1]))
+        if self.k == "xlog1p":
+            return float(2 / (1 + x) + x / (1 + x) ** 2)
+        return 0.0
+
+    def d2_span(self, x, t):
+        """(min, max) of rho'' over x(1-t), x, x(1+t)  (mp numbers)"""
         v = [self.d2(x), self.d2(x * (1 - t)), self.d2(x * (1 + t))]
-        if all(c > 0 for c in v):
+        return min(v), max(v)
+
+    def d2_range(self, x, t, cn=0.0):
+        """(lo, hi) as mp numbers: the range of rho'' over x(1-t), x, x(1+t), widened by cn*d2noise(x) on both sides"""
+        lo, hi = self.d2_span(x, t)
+        nz = mp.mpf(cn) * mp.mpf(self.d2noise(x)) if cn else 0
+        return lo - nz, hi + nz
+
+    def curv_class(self, x, t, cn=0.0):
+        """sign class of rho'' robust to a relative perturbation t of x and to an absolute evaluation noise cn*d2noise(x):
+        'pos', 'nonpos' or 'ambig'"""
+        lo, hi = self.d2_range(x, t, cn)
+        if lo > 0:
             return "pos"
-        if all(c <= 0 for c in v):
+        if hi <= 0:
             return "nonpos"
         return "ambig"
 
@@ -222,3 +252,15 @@ def selftest():
                 n1, n2 = mp.diff(r.rho, x), mp.diff(r.d1, x)
                 assert abs(n1 - r.d1(x)) <= mp.mpf(10) ** (-20) * (1 + abs(n1)), (s, x, n1, r.d1(x))
                 assert abs(n2 - r.d2(x)) <= mp.mpf(10) ** (-20) * (1 + abs(n2)), (s, x, n2, r.d2(x))
+        # d2noise is the size of the cancelling terms of the twice-differentiated formula: Tolerant rho'' = s/b - s^2/b
+        r = Ref({"k": "Tolerant", "p": [2.0, -0.3]})
+        for x in (0.0, 0.4, 1.9, 2.6, 11.0):
+            x = mp.mpf(x)
+            s1, b = r.d1(x), r.p[1]
+            assert abs((s1 / b - s1 ** 2 / b) - r.d2(x)) <= mp.mpf(10) ** (-30), x
+            assert abs(float(abs(s1 / b) + abs(s1 ** 2 / b)) - r.d2noise(x)) <= 1e-12 * r.d2noise(x), x
+            assert r.curv_class(x, 1e-15) == "nonpos" and r.curv_class(x, 1e-15, 1e-15) == "nonpos", x
+        assert r.curv_class(mp.mpf(0.0001), 1e-7, 8 * 2.0 ** -23) == "nonpos"            # (a-x)/|b| = 6.7: 1-s = 1.3e-3
+        r = Ref({"k": "Tolerant", "p": [1.0, -0.05]})
+        assert r.curv_class(mp.mpf(0.25), 1e-7, 8 * 2.0 ** -23) == "ambig"              # (a-x)/|b| = 15: 1-s = 3e-7 < 16 eps32
+        assert r.curv_class(mp.mpf(0.25), 1e-15, 8 * 2.0 ** -52) == "nonpos"            # ... but resolved in float64
